@@ -153,7 +153,10 @@ CLAIMED["C15"] = {
             "forwarder_forward_appends, forwarder_is_loose); for every history incl. lag, overflow, empty() and BMCA hand-backs, what a "
             "forwarder handed out is position by position a subsequence of what was sent: at most once per port, in arrival order, "
             "unmodified (forwarder_history); and neither port task's clearing rule touches the queue of a Master port "
-            "(port_tasks_keep_master_queue - false before fix 76e768f: the ethernet task emptied exactly the master ports' queues).",
+            "(port_tasks_keep_master_queue - false before fix 76e768f: the ethernet task emptied exactly the master ports' queues). The two "
+            "halves are joined by announce_forwards_from_the_daemons_queue: the forwarding loop of send_announce run against a "
+            "forwarder (drain) appends exactly what the port-level model appends when handed that forwarder's pending list, and "
+            "leaves in the forwarder what the model leaves in the list.",
     "note": "Trusted: Lean kernel; generators. The port tasks of main.rs need sockets and are not executed: the clearing rule is read "
             "from the source text (by the translator for the model, independently by the harness for the real TlvForwarder) and applied "
             "at the BMCA hand-back; everything else in the tasks (timers, sockets, action dispatch) is not modelled.",
